@@ -567,6 +567,10 @@ MANIFEST = dict(
     'W^H(big_H x + last_noise).',
     note='RNG replaced by a symbolic stub through the private _RS_* '
     'attributes; K=2 and two antenna layouts; floats as reals; history '
-    'length bounded',
+    'length bounded'
+    ' Concrete data-representation / scale / boundary probes of the real'
+    ' code (dtype, container and memory-layout variants, argument'
+    ' immutability, magnitudes) accompany the symbolic runs; they are'
+    ' differential runs, not solver verdicts.',
     technique='symbolic execution of bounded call histories on object arrays '
     '+ polynomial normal form / linearised QF_LRA prover (z3)')
